@@ -493,9 +493,12 @@ def offsets_cases(n_requests):
                 if layer == "raw" and hold == "sync" and not xh and payload:
                     # a stalled body behind an earlier request that installed its own long body timeout (and behind a
                     # plain one): the server's body_timeout must still end the stalled request
-                    for lead in ("override_timeout", "plain"):
-                        for cut in sorted({len(head), len(head) + 1, len(head) + len(payload) // 2, len(head) + len(payload) - 1}):
-                            yield dict(base, lead=lead, event="timeout", timeout_via="server", cut=cut)
+                    for lead in ("override_timeout", "plain", None):
+                        for via in ("server", "request"):
+                            if lead == "override_timeout" and via == "request":
+                                continue
+                            for cut in sorted({len(head), len(head) + 1, len(head) + len(payload) // 2, len(head) + len(payload) - 1}):
+                                yield dict(base, lead=lead, event="timeout", timeout_via=via, cut=cut)
                 if layer == "raw":
                     # the application answers before the request is fully read; every offset, no fault and FIN
                     for early in ("in_headers", "in_data"):
